@@ -214,6 +214,18 @@ func c18One(c *Ctx, idx int, local map[string]int64) {
 			r.Violation("window-not-applied-exactly", det(fmt.Sprintf("after call %d the range is [%s, %s], want [%s, %s]; condition now: %s", k+1, tr.MinTime().UTC().Format(time.RFC3339Nano), tr.MaxTime().UTC().Format(time.RFC3339Nano), wantMin.UTC().Format(time.RFC3339Nano), wantMax.UTC().Format(time.RFC3339Nano), sel.Condition), k+1))
 			return
 		}
+		// every other reference is still there as it was written, cast included
+		if cond != nil && !constFalse {
+			var orig influxql.Expr
+			mon.Try(func() { orig, _ = influxql.ParseExpr(cond.render()) })
+			have := tcRefTypes(orig)
+			for rt := range tcRefTypes(sel.Condition) {
+				if !have[rt] {
+					r.Violation("predicate-changed", det(fmt.Sprintf("after call %d the condition refers to %s, which the original condition does not (it has %v); condition now: %s", k+1, rt, have, sel.Condition), k+1))
+					return
+				}
+			}
+		}
 		nodes, tl := countNodes(sel.Condition)
 		if tl != 2 && !constFalse {
 			if known() {
